@@ -39,6 +39,7 @@ import Fcgi.Props.C07Echo2
 import Fcgi.Props.C07NoFuel2
 import Fcgi.Props.C07Echo3
 import Fcgi.Props.C07NoFuel3
+import Fcgi.Props.C07NoFuel4
 import Fcgi.Props.C08
 import Fcgi.Props.C08Inv
 import Fcgi.Props.C08Replies
@@ -97,6 +98,7 @@ import Fcgi.Props.C17
 import Fcgi.Props.C18
 import Fcgi.Props.C18Held
 import Fcgi.Props.C18None
+import Fcgi.Props.C18None2
 import Fcgi.Props.C19
 import Fcgi.Props.C20
 
@@ -132,7 +134,7 @@ requests) and from the echo Responder (C07 Clauses 21, 23, 25, 26) and the Filte
 (`C11NoFuel`), C12 Clauses 1, 5, 9, 10 (`C12NoFuel`: Responder EOF / failure at any offset, write error, read error at
 any index) and C14 Clauses 1–2 (`C14NoFuel`).  It REMAINS, as an artefact of the proofs only (removable by the recipe of
 `Proofs/E2ENoFuel.lean`), in: C07 Clause 8 (`wcost |data| + 8 ≤ 1000`), 10–12 (`2·n + …`: the number of
-`fill_buf`/`consume` rounds), 15–20 (`fcost W`: writes, flushes, output records; 13–14 lost it in `C07NoFuel3`); the follow-up requests
+`fill_buf`/`consume` rounds) — Clauses 13–18 lost it in `C07NoFuel3` / `C07NoFuel4`; the follow-up requests
 `Sent.OKu` of C11 Clauses 1, 6, 9; C12 Clauses 2, 3 (Filter / Authorizer any-offset) and 12–15 (chain: `UReq.OKu` and, in 12–13, the
 last request's `hhf`).
 `C11Clause7` is the `_anysize` table of
@@ -1510,16 +1512,16 @@ end Fcgi.Headline
   `Props/C07Writers.lean` … `C07Writers4.lean`; 17–18, 20: a Filter), the echo Responder — writes
   interleaved with reads (Clauses 21–22, `Props/C07Echo.lean`).  All e2e clauses are size-free: no bound on
   the wire length or the buffer.  MODEL FUEL: since the model's handler fuel pays for what is left of the
-  handler script (`Props/C07ScriptFuel.lean`), Clauses 1–4 (`Props/C07NoFuel.lean`), 6, 13–14 and 21–26 have
+  handler script (`Props/C07ScriptFuel.lean`), Clauses 1–4 (`Props/C07NoFuel.lean`), 6, 13–18 and 21–26 have
   NO fuel hypothesis; in the other clauses `hhf` is still in the statement but is now an artefact of their
   PROOFS only (removable by the recipe of `Proofs/E2ENoFuel.lean`): `wcost |data| + c ≤ 1000` (Clause 8;
   Clause 6 is the `_nofuel` version of `Props/C07NoFuel2.lean`), the number of `fill_buf`/`consume` rounds
-  `2·n + …` (Clauses 10–12; Clause 10 also needs `|content| ≤ n`), the number of writes, flushes and output
-  records `fcost W` (Clauses 15–20; Clauses 13–14 are the `_nofuel` versions of `Props/C07NoFuel3.lean`).
-  Clauses 15–20 also need `hfl` (no error among the flush answers); Clauses 15 and 17 also need `hmore`
-  (later scripts propagate errors; forced by the proof — in the chain theorems of Clauses 16 and 18 it holds
-  by construction); Clauses 19–20 are Clauses 15 and 17 WITHOUT `hmore` (`E2E.stepConn_fs`).  Clause 21:
-  reads of ONE byte (`m = 1`: the unrolled script is then independent of the transport's chunking) and
+  `2·n + …` (Clauses 10–12; Clause 10 also needs `|content| ≤ n`), Clauses 13–18 (`Props/C07NoFuel3.lean`,
+  `C07NoFuel4.lean`) have NO cost hypothesis either; Clauses 15–18 need `hfl` (no error among the flush
+  answers; `hfuel` then counts `|t.fl|` too) and nothing about the later handler scripts
+  (`E2E.stepConn_fs`); Clauses 19–20 (`Props/C07ScriptFuel.lean`) are the reason no cost hypothesis is
+  needed: the fuel guard of the handler poll is unreachable for every script (under `SInv r.sp`).  Clause
+  21: reads of ONE byte (`m = 1`: the unrolled script is then independent of the transport's chunking) and
   `hquiet` (the noise inside Stdin owes no reply); Clauses 23–24 (`Props/C07Echo2.lean`, ledger
   `Proofs/E2ELedger`) remove `hquiet`: the log is then an interleaving of replies and handler records (not
   stated: that no reply RECORD is cut by a handler record).  Clauses 25–26 (`Props/C07Echo3.lean`) add what
@@ -1555,15 +1557,18 @@ end Fcgi.Headline
    (empty, or longer than 65 535 bytes = several records): every write is on the wire exactly once, in script
    order, records never interleaved; no size bound
 14. `C07W.writers_chain_e2e_nofuel` — … and with KEEP_CONN the connection then serves the following requests
-15. `C07W.single_request_writers_flush_e2e` — … with `flush` calls anywhere in the script and arbitrary
-   Pending/Ok flush answers: a flush contributes no byte
-16. `C07W.writers_flush_chain_e2e` — … chain step of the flush variant
-17. `C07W.filter_writers_flush_e2e` — the same for a FILTER: reads Stdin, switches to Data, reads Data, then
-   any `write_all`/`flush` script on two writers
-18. `C07W.filter_writers_flush_chain_e2e` — … chain step
-19. `C07W.single_request_writers_flush_e2e_nomore` — Clause 15 WITHOUT the hypothesis on the later handler
-   scripts (`hmore`)
-20. `C07W.filter_writers_flush_e2e_nomore` — Clause 17 without `hmore`
+15. `C07W.single_request_writers_flush_e2e_nomore_nofuel` — … with `flush` calls anywhere in the script and
+   arbitrary Pending/Ok flush answers: a flush contributes no byte (no hypothesis on later scripts, no cost
+   hypothesis)
+16. `C07W.writers_flush_chain_e2e_nofuel` — … chain step of the flush variant
+17. `C07W.filter_writers_flush_e2e_nomore_nofuel` — the same for a FILTER: reads Stdin, switches to Data,
+   reads Data, then any `write_all`/`flush` script on two writers (no `hmore`, no cost hypothesis)
+18. `C07W.filter_writers_flush_chain_e2e_nofuel` — … chain step
+19. `C07SF.handlerPoll_guard_unreachable` — WHY no cost hypothesis is needed: with the fuel `pollConn`
+   passes (it pays for what is left of the handler script) a panic of the handler poll is a modelled panic site
+   of the Rust, never the model's fuel guard — for EVERY script
+20. `C07SF.handler_phase_guard_unreachable` — … the same at the level of the connection task (`stepConn` in
+   the handler phase)
 21. `C07W.echo_responder_e2e` — the ECHO Responder — writes INTERLEAVED with reads (`read(1)`; `write_all`
    of that byte; …): one Stdout record per content byte, in order; restrictions: reads of 1 byte, Stdin noise
    that owes no reply (`hquiet`); no fuel hypothesis
@@ -1964,7 +1969,7 @@ end
 section
 namespace Fcgi.C07W
 open Fcgi Fcgi.Req Fcgi.Str Fcgi.Async Fcgi.Run Fcgi.Spec Fcgi.E2E Fcgi.C07E Fcgi.C07U Fcgi.C07B
-/-- … with `flush` calls anywhere in the script and arbitrary Pending/Ok flush answers: a flush contributes no byte  (= `Fcgi.C07W.single_request_writers_flush_e2e`, `Props/C07Writers2.lean`) -/
+/-- … with `flush` calls anywhere in the script and arbitrary Pending/Ok flush answers: a flush contributes no byte (no hypothesis on later scripts, no cost hypothesis)  (= `Fcgi.C07W.single_request_writers_flush_e2e_nomore_nofuel`, `Props/C07NoFuel4.lean`) -/
 def C07Clause15 : Prop :=
   ∀ {p : Preamble} {recs : List Rec} {content : Bytes} {srecs : List Rec}
     {b mc : Nat} {W : FList} {st : ExitStatus} {more : List (List HOp × Bool)} {t : Transport} {fuel : Nat}
@@ -1973,9 +1978,8 @@ def C07Clause15 : Prop :=
     (hnoise : NoiseFits (alignedBufsize b) recs)
     (hs : StreamRecs p.id 5 content srecs) (hsn : NoiseFits (alignedBufsize b) srecs)
     (hin : t.input = serAll recs ++ serAll srecs) (hben : Ben t) (hev : hsCount t.events = 0)
-    (hfl : ∀ a ∈ t.fl, a ≠ FlAns.err) (hmore : ∀ s ∈ more, s.2 = true)
-    (hfuel : t.rd.length + t.wr.length + t.fl.length + 1 ≤ fuel)
-    (hhf : fcost W + 20 ≤ 1000),
+    (hfl : ∀ a ∈ t.fl, a ≠ FlAns.err)
+    (hfuel : t.rd.length + t.wr.length + t.fl.length + 1 ≤ fuel),
     ∃ c' fin O₁ O₂ pad res,
       runTask fuel (connS b mc t ((fscriptW W st, true) :: more)) 0 none = (c', fin) ∧
       O₁ ++ O₂ = owedStream p.id 5 mc srecs ∧
@@ -1983,7 +1987,7 @@ def C07Clause15 : Prop :=
 
 theorem C07Clause15_holds : C07Clause15 := by
   unfold C07Clause15
-  exact @single_request_writers_flush_e2e
+  exact @single_request_writers_flush_e2e_nomore_nofuel
 
 end Fcgi.C07W
 end
@@ -1991,7 +1995,7 @@ end
 section
 namespace Fcgi.C07W
 open Fcgi Fcgi.Req Fcgi.Str Fcgi.Async Fcgi.Run Fcgi.Spec Fcgi.E2E Fcgi.C07E Fcgi.C07U Fcgi.C07B
-/-- … chain step of the flush variant  (= `Fcgi.C07W.writers_flush_chain_e2e`, `Props/C07Writers2.lean`) -/
+/-- … chain step of the flush variant  (= `Fcgi.C07W.writers_flush_chain_e2e_nofuel`, `Props/C07NoFuel4.lean`) -/
 def C07Clause16 : Prop :=
   ∀ {p : Preamble} {recs : List Rec} {content : Bytes} {srecs : List Rec}
     {b mc : Nat} {W : FList} {st : ExitStatus} (x : UReq) (xs : List UReq) {t : Transport} {fuel : Nat}
@@ -2002,8 +2006,7 @@ def C07Clause16 : Prop :=
     (hok : ∀ y ∈ x :: xs, y.OKu b)
     (hin : t.input = serAll recs ++ serAll srecs) (hben : Ben t) (hem : t.endMode = .pend)
     (hev : hsCount t.events = 0) (hfl : ∀ a ∈ t.fl, a ≠ FlAns.err)
-    (hfuel : t.rd.length + t.wr.length + t.fl.length + 1 ≤ fuel)
-    (hhf : fcost W + 20 ≤ 1000),
+    (hfuel : t.rd.length + t.wr.length + t.fl.length + 1 ≤ fuel),
     ∃ c' O₁ O₂ A,
       closedLoop fuel ((x :: xs).map UReq.wire)
         (connS b mc t ((fscriptW W st, true) :: (x :: xs).map UReq.handler)) 0 = (c', "STALL") ∧
@@ -2018,7 +2021,7 @@ def C07Clause16 : Prop :=
 
 theorem C07Clause16_holds : C07Clause16 := by
   unfold C07Clause16
-  exact @writers_flush_chain_e2e
+  exact @writers_flush_chain_e2e_nofuel
 
 end Fcgi.C07W
 end
@@ -2026,7 +2029,7 @@ end
 section
 namespace Fcgi.C07W
 open Fcgi Fcgi.Req Fcgi.Str Fcgi.Async Fcgi.Run Fcgi.Spec Fcgi.E2E Fcgi.C07E Fcgi.C07U Fcgi.C07B
-/-- the same for a FILTER: reads Stdin, switches to Data, reads Data, then any `write_all`/`flush` script on two writers  (= `Fcgi.C07W.filter_writers_flush_e2e`, `Props/C07Writers3.lean`) -/
+/-- the same for a FILTER: reads Stdin, switches to Data, reads Data, then any `write_all`/`flush` script on two writers (no `hmore`, no cost hypothesis)  (= `Fcgi.C07W.filter_writers_flush_e2e_nomore_nofuel`, `Props/C07NoFuel4.lean`) -/
 def C07Clause17 : Prop :=
   ∀ {p : Preamble} {recs : List Rec} {content : Bytes} {srecs : List Rec}
     {content2 : Bytes} {drecs : List Rec}
@@ -2037,9 +2040,8 @@ def C07Clause17 : Prop :=
     (hs : StreamRecs p.id 5 content srecs) (hsn : NoiseFits (alignedBufsize b) srecs)
     (hd : StreamRecs p.id 8 content2 drecs) (hdn : NoiseFits (alignedBufsize b) drecs)
     (hin : t.input = serAll recs ++ (serAll srecs ++ serAll drecs)) (hben : Ben t) (hev : hsCount t.events = 0)
-    (hfl : ∀ a ∈ t.fl, a ≠ FlAns.err) (hmore : ∀ s ∈ more, s.2 = true)
-    (hfuel : t.rd.length + t.wr.length + t.fl.length + 1 ≤ fuel)
-    (hhf : fcost W + 40 ≤ 1000),
+    (hfl : ∀ a ∈ t.fl, a ≠ FlAns.err)
+    (hfuel : t.rd.length + t.wr.length + t.fl.length + 1 ≤ fuel),
     ∃ c' fin O₁ O₂ pad2 res2,
       runTask fuel (connS b mc t ((ffscriptW W st, true) :: more)) 0 none = (c', fin) ∧
       O₁ ++ O₂ = owedStream p.id 5 mc srecs ++ owedStream p.id 8 mc drecs ∧
@@ -2047,7 +2049,7 @@ def C07Clause17 : Prop :=
 
 theorem C07Clause17_holds : C07Clause17 := by
   unfold C07Clause17
-  exact @filter_writers_flush_e2e
+  exact @filter_writers_flush_e2e_nomore_nofuel
 
 end Fcgi.C07W
 end
@@ -2055,7 +2057,7 @@ end
 section
 namespace Fcgi.C07W
 open Fcgi Fcgi.Req Fcgi.Str Fcgi.Async Fcgi.Run Fcgi.Spec Fcgi.E2E Fcgi.C07E Fcgi.C07U Fcgi.C07B
-/-- … chain step  (= `Fcgi.C07W.filter_writers_flush_chain_e2e`, `Props/C07Writers3.lean`) -/
+/-- … chain step  (= `Fcgi.C07W.filter_writers_flush_chain_e2e_nofuel`, `Props/C07NoFuel4.lean`) -/
 def C07Clause18 : Prop :=
   ∀ {p : Preamble} {recs : List Rec} {content : Bytes} {srecs : List Rec}
     {content2 : Bytes} {drecs : List Rec}
@@ -2068,8 +2070,7 @@ def C07Clause18 : Prop :=
     (hok : ∀ y ∈ x :: xs, y.OKu b)
     (hin : t.input = serAll recs ++ (serAll srecs ++ serAll drecs)) (hben : Ben t) (hem : t.endMode = .pend)
     (hev : hsCount t.events = 0) (hfl : ∀ a ∈ t.fl, a ≠ FlAns.err)
-    (hfuel : t.rd.length + t.wr.length + t.fl.length + 1 ≤ fuel)
-    (hhf : fcost W + 40 ≤ 1000),
+    (hfuel : t.rd.length + t.wr.length + t.fl.length + 1 ≤ fuel),
     ∃ c' O₁ O₂ A,
       closedLoop fuel ((x :: xs).map UReq.wire)
         (connS b mc t ((ffscriptW W st, true) :: (x :: xs).map UReq.handler)) 0 = (c', "STALL") ∧
@@ -2085,65 +2086,42 @@ def C07Clause18 : Prop :=
 
 theorem C07Clause18_holds : C07Clause18 := by
   unfold C07Clause18
-  exact @filter_writers_flush_chain_e2e
+  exact @filter_writers_flush_chain_e2e_nofuel
 
 end Fcgi.C07W
 end
 
 section
-namespace Fcgi.C07W
-open Fcgi Fcgi.Req Fcgi.Str Fcgi.Async Fcgi.Run Fcgi.Spec Fcgi.E2E Fcgi.C07E Fcgi.C07U Fcgi.C07B
-/-- Clause 15 WITHOUT the hypothesis on the later handler scripts (`hmore`)  (= `Fcgi.C07W.single_request_writers_flush_e2e_nomore`, `Props/C07Writers4.lean`) -/
+namespace Fcgi.C07SF
+open Fcgi Fcgi.Req Fcgi.Str Fcgi.Async Fcgi.Run
+/-- WHY no cost hypothesis is needed: with the fuel `pollConn` passes (it pays for what is left of the handler script) a panic of the handler poll is a modelled panic site of the Rust, never the model's fuel guard — for EVERY script  (= `Fcgi.C07SF.handlerPoll_guard_unreachable`, `Props/C07ScriptFuel.lean`) -/
 def C07Clause19 : Prop :=
-  ∀ {p : Preamble} {recs : List Rec} {content : Bytes} {srecs : List Rec}
-    {b mc : Nat} {W : FList} {st : ExitStatus} {more : List (List HOp × Bool)} {t : Transport} {fuel : Nat}
-    (hwf : WellFormedPreamble p recs) (hrole : p.role = 1)
-    (hpairs : ∀ q ∈ p.pairs, (NV.enc q).length ≤ alignedBufsize b)
-    (hnoise : NoiseFits (alignedBufsize b) recs)
-    (hs : StreamRecs p.id 5 content srecs) (hsn : NoiseFits (alignedBufsize b) srecs)
-    (hin : t.input = serAll recs ++ serAll srecs) (hben : Ben t) (hev : hsCount t.events = 0)
-    (hfl : ∀ a ∈ t.fl, a ≠ FlAns.err)
-    (hfuel : t.rd.length + t.wr.length + t.fl.length + 1 ≤ fuel)
-    (hhf : fcost W + 20 ≤ 1000),
-    ∃ c' fin O₁ O₂ pad res,
-      runTask fuel (connS b mc t ((fscriptW W st, true) :: more)) 0 none = (c', fin) ∧
-      O₁ ++ O₂ = owedStream p.id 5 mc srecs ∧
-      WritersOutcome p recs content (E2E.writesOf W) O₁ O₂ pad res b mc st more t c' fin
+  ∀ (r : AReq) (h : HState) (e : Run.Env) {r' : AReq} {h' : HState}
+    {e' : Run.Env} {s : String} (hinv : SInv r.sp)
+    (hp : handlerPoll (handlerFuel e r + scriptCost h) r h e = (r', h', e', HRes.panic s)),
+    RealSite s ∧ s ∉ fuelMsgs
 
 theorem C07Clause19_holds : C07Clause19 := by
   unfold C07Clause19
-  exact @single_request_writers_flush_e2e_nomore
+  exact @handlerPoll_guard_unreachable
 
-end Fcgi.C07W
+end Fcgi.C07SF
 end
 
 section
-namespace Fcgi.C07W
-open Fcgi Fcgi.Req Fcgi.Str Fcgi.Async Fcgi.Run Fcgi.Spec Fcgi.E2E Fcgi.C07E Fcgi.C07U Fcgi.C07B
-/-- Clause 17 without `hmore`  (= `Fcgi.C07W.filter_writers_flush_e2e_nomore`, `Props/C07Writers4.lean`) -/
+namespace Fcgi.C07SF
+open Fcgi Fcgi.Req Fcgi.Str Fcgi.Async Fcgi.Run
+/-- … the same at the level of the connection task (`stepConn` in the handler phase)  (= `Fcgi.C07SF.handler_phase_guard_unreachable`, `Props/C07ScriptFuel.lean`) -/
 def C07Clause20 : Prop :=
-  ∀ {p : Preamble} {recs : List Rec} {content : Bytes} {srecs : List Rec}
-    {content2 : Bytes} {drecs : List Rec}
-    {b mc : Nat} {W : FList} {st : ExitStatus} {more : List (List HOp × Bool)} {t : Transport} {fuel : Nat}
-    (hwf : WellFormedPreamble p recs) (hrole : p.role = 3)
-    (hpairs : ∀ q ∈ p.pairs, (NV.enc q).length ≤ alignedBufsize b)
-    (hnoise : NoiseFits (alignedBufsize b) recs)
-    (hs : StreamRecs p.id 5 content srecs) (hsn : NoiseFits (alignedBufsize b) srecs)
-    (hd : StreamRecs p.id 8 content2 drecs) (hdn : NoiseFits (alignedBufsize b) drecs)
-    (hin : t.input = serAll recs ++ (serAll srecs ++ serAll drecs)) (hben : Ben t) (hev : hsCount t.events = 0)
-    (hfl : ∀ a ∈ t.fl, a ≠ FlAns.err)
-    (hfuel : t.rd.length + t.wr.length + t.fl.length + 1 ≤ fuel)
-    (hhf : fcost W + 40 ≤ 1000),
-    ∃ c' fin O₁ O₂ pad2 res2,
-      runTask fuel (connS b mc t ((ffscriptW W st, true) :: more)) 0 none = (c', fin) ∧
-      O₁ ++ O₂ = owedStream p.id 5 mc srecs ++ owedStream p.id 8 mc drecs ∧
-      FilterWritersOutcome p recs content content2 (E2E.writesOf W) O₁ O₂ pad2 res2 b mc st more t c' fin
+  ∀ (c : Conn) (r : AReq) (h : HState) (hph : c.phase = .handler r h)
+    (hinv : SInv r.sp) {c1 : Conn} {s : String} (hs : stepConn c = .halt c1 (.panic s)),
+    RealSite s ∧ s ∉ fuelMsgs
 
 theorem C07Clause20_holds : C07Clause20 := by
   unfold C07Clause20
-  exact @filter_writers_flush_e2e_nomore
+  exact @handler_phase_guard_unreachable
 
-end Fcgi.C07W
+end Fcgi.C07SF
 end
 
 section
@@ -2300,15 +2278,15 @@ theorem C07_headline :
     Fcgi.C07W.C07Clause16 ∧
     Fcgi.C07W.C07Clause17 ∧
     Fcgi.C07W.C07Clause18 ∧
-    Fcgi.C07W.C07Clause19 ∧
-    Fcgi.C07W.C07Clause20 ∧
+    Fcgi.C07SF.C07Clause19 ∧
+    Fcgi.C07SF.C07Clause20 ∧
     Fcgi.C07W.C07Clause21 ∧
     Fcgi.C07W.C07Clause22 ∧
     Fcgi.C07W.C07Clause23 ∧
     Fcgi.C07W.C07Clause24 ∧
     Fcgi.C07W.C07Clause25 ∧
     Fcgi.C07W.C07Clause26 :=
-  ⟨Fcgi.C07E.C07Clause1_holds, Fcgi.C07E.C07Clause2_holds, Fcgi.C07E.C07Clause3_holds, Fcgi.C07E.C07Clause4_holds, Fcgi.Headline.C07Clause5_holds, Fcgi.C07U.C07Clause6_holds, Fcgi.C07U.C07Clause7_holds, Fcgi.C07U.C07Clause8_holds, Fcgi.C07U.C07Clause9_holds, Fcgi.C07B.C07Clause10_holds, Fcgi.C07B.C07Clause11_holds, Fcgi.C07B.C07Clause12_holds, Fcgi.C07W.C07Clause13_holds, Fcgi.C07W.C07Clause14_holds, Fcgi.C07W.C07Clause15_holds, Fcgi.C07W.C07Clause16_holds, Fcgi.C07W.C07Clause17_holds, Fcgi.C07W.C07Clause18_holds, Fcgi.C07W.C07Clause19_holds, Fcgi.C07W.C07Clause20_holds, Fcgi.C07W.C07Clause21_holds, Fcgi.C07W.C07Clause22_holds, Fcgi.C07W.C07Clause23_holds, Fcgi.C07W.C07Clause24_holds, Fcgi.C07W.C07Clause25_holds, Fcgi.C07W.C07Clause26_holds⟩
+  ⟨Fcgi.C07E.C07Clause1_holds, Fcgi.C07E.C07Clause2_holds, Fcgi.C07E.C07Clause3_holds, Fcgi.C07E.C07Clause4_holds, Fcgi.Headline.C07Clause5_holds, Fcgi.C07U.C07Clause6_holds, Fcgi.C07U.C07Clause7_holds, Fcgi.C07U.C07Clause8_holds, Fcgi.C07U.C07Clause9_holds, Fcgi.C07B.C07Clause10_holds, Fcgi.C07B.C07Clause11_holds, Fcgi.C07B.C07Clause12_holds, Fcgi.C07W.C07Clause13_holds, Fcgi.C07W.C07Clause14_holds, Fcgi.C07W.C07Clause15_holds, Fcgi.C07W.C07Clause16_holds, Fcgi.C07W.C07Clause17_holds, Fcgi.C07W.C07Clause18_holds, Fcgi.C07SF.C07Clause19_holds, Fcgi.C07SF.C07Clause20_holds, Fcgi.C07W.C07Clause21_holds, Fcgi.C07W.C07Clause22_holds, Fcgi.C07W.C07Clause23_holds, Fcgi.C07W.C07Clause24_holds, Fcgi.C07W.C07Clause25_holds, Fcgi.C07W.C07Clause26_holds⟩
 end Fcgi.Headline
 
 
@@ -5366,8 +5344,9 @@ end Fcgi.Headline
   stream of THIS request starts delivery), Clauses 9–11 (the held-back header: not consumed, `stream_end`
   again on every later `parse` without new input, kept across consume/compress), Clauses 13–15
   (`Props/C18Held.lean`: the same under `parse` calls WITH NEW INPUT, and what happens after the caller
-  advances), Clauses 16–18 (`set_stream(None)`: ignore mode, permanent, releases a held-back header), Clause
-  19 (finding: records behind the held-back header wait unanswered).  History level ('only the active
+  advances), Clauses 16–20 (`set_stream(None)`: ignore mode, permanent, releases a held-back header; the
+  replies on arbitrary bytes are the reference's, chunk invariance up to the `pay`/`pad` counters), Clause
+  21 (finding: records behind the held-back header wait unanswered).  History level ('only the active
   stream's payload is ever delivered'): `C03SI.prefix_sim`, C02 Clause 1.
 
 **The conjuncts of `C18_headline`.**
@@ -5404,7 +5383,12 @@ end Fcgi.Headline
    `set_stream(Some _)` is rejected
 18. `C18N.held_then_none_consumes` — a held-back header is RELEASED by `set_stream(None)`: the next `parse`
    consumes it
-19. `C18H.Example.behind_answered_at_once_full_false` — FINDING: management records arriving behind the
+19. `C18N.none_replies_ref` — after `set_stream(None)`, on ARBITRARY bytes and any legal drained history:
+   the replies are exactly the reference's, the unread bytes the reference's remainder, the state terminal with
+   the reference's verdict
+20. `C18N.none_chunk_invariance_partial` — … so two drained histories over the same bytes agree on replies
+   and unread bytes (chunk invariance after None, minus the `pay`/`pad` counters)
+21. `C18H.Example.behind_answered_at_once_full_false` — FINDING: management records arriving behind the
    held-back header are NOT answered until the caller advances (the expectation "answered by the call that
    feeds them" is refuted)
 
@@ -5423,10 +5407,11 @@ end Fcgi.Headline
 
 **Not proved as theorems — carried by the differential run + oracle, or trusted.**
 * `set_stream(Some(non-input type))` hits a debug assertion: modelled as the panic it is in debug builds
-* HeldBack under `parse` with NEW input: PROVED (Clauses 13–15, 19); `set_stream(None)`: covered (Clauses
-  16–18, `Props/C18None.lean`); arbitrary-bytes chunk invariance after None: OPEN
-  (`C18N.none_chunk_invariance_full`, a def only); precondition of every call `new.length ≤ p.free` (the
-  buffer fills up while waiting: `held_free_shrinks`)
+* HeldBack under `parse` with NEW input: PROVED (Clauses 13–15, 21); `set_stream(None)`: covered (Clauses
+  16–18, `Props/C18None.lean`); arbitrary-bytes chunk invariance after None: Clauses 19–20
+  (`Props/C18None2.lean`: replies and unread bytes); OPEN only the `pay`/`pad` counter conjuncts of
+  `C18N.none_chunk_invariance_full`; precondition of every call `new.length ≤ p.free` (the buffer fills up
+  while waiting: `held_free_shrinks`)
 
 -/
 
@@ -5756,17 +5741,57 @@ end Fcgi.C18N
 end
 
 section
+namespace Fcgi.C18N
+open Fcgi Fcgi.Str Fcgi.Spec
+open Fcgi.Req (Request PErr)
+/-- after `set_stream(None)`, on ARBITRARY bytes and any legal drained history: the replies are exactly the reference's, the unread bytes the reference's remainder, the state terminal with the reference's verdict  (= `Fcgi.C18N.none_replies_ref`, `Props/C18None2.lean`) -/
+def C18Clause19 : Prop :=
+  ∀ {p : Parser} (hinv : SInv p) (hig : Ign p) (hb : p.isRecordBoundary = true)
+    {ops : List Op} (hl : LegalAll p ops) (hns : NoSet ops) (hdr : Drained (applyOps p ops)),
+    C03S.grownAll p ops = (refWire (cfgN p) (p.raw ++ fedBytes ops)).out ∧
+    C03S.grownAll p ops = C04H.streamReplies (cfgN p) (p.raw ++ fedBytes ops) ∧
+    (applyOps p ops).raw = (refWire (cfgN p) (p.raw ++ fedBytes ops)).unread ∧
+    Terminal.verdictIs (cfgN p) (applyOps p ops) (refWire (cfgN p) (p.raw ++ fedBytes ops)).verdict ∧
+    deliveredOps p ops = []
+
+theorem C18Clause19_holds : C18Clause19 := by
+  unfold C18Clause19
+  exact @none_replies_ref
+
+end Fcgi.C18N
+end
+
+section
+namespace Fcgi.C18N
+open Fcgi Fcgi.Str Fcgi.Spec
+open Fcgi.Req (Request PErr)
+/-- … so two drained histories over the same bytes agree on replies and unread bytes (chunk invariance after None, minus the `pay`/`pad` counters)  (= `Fcgi.C18N.none_chunk_invariance_partial`, `Props/C18None2.lean`) -/
+def C18Clause20 : Prop :=
+  ∀ (p : Parser) (ops₁ ops₂ : List Op) (hinv : SInv p) (hig : Ign p)
+    (hb : p.isRecordBoundary = true) (hl₁ : LegalAll p ops₁) (hl₂ : LegalAll p ops₂)
+    (hn₁ : NoSet ops₁) (hn₂ : NoSet ops₂) (hfed : fedBytes ops₁ = fedBytes ops₂)
+    (hd₁ : Drained (applyOps p ops₁)) (hd₂ : Drained (applyOps p ops₂)),
+    C03S.grownAll p ops₁ = C03S.grownAll p ops₂ ∧ (applyOps p ops₁).raw = (applyOps p ops₂).raw
+
+theorem C18Clause20_holds : C18Clause20 := by
+  unfold C18Clause20
+  exact @none_chunk_invariance_partial
+
+end Fcgi.C18N
+end
+
+section
 namespace Fcgi.C18H
 open Fcgi Fcgi.Str Fcgi.Spec
 open Fcgi.Req (Request PErr)
 namespace Example
 open Fcgi.C18
 /-- FINDING: management records arriving behind the held-back header are NOT answered until the caller advances (the expectation "answered by the call that feeds them" is refuted)  (= `Fcgi.C18H.Example.behind_answered_at_once_full_false`, `Props/C18Held.lean`) -/
-def C18Clause19 : Prop :=
+def C18Clause21 : Prop :=
   ¬ behind_answered_at_once_full
 
-theorem C18Clause19_holds : C18Clause19 := by
-  unfold C18Clause19
+theorem C18Clause21_holds : C18Clause21 := by
+  unfold C18Clause21
   exact @behind_answered_at_once_full_false
 
 end Example
@@ -5794,8 +5819,10 @@ theorem C18_headline :
     Fcgi.C18N.C18Clause16 ∧
     Fcgi.C18N.C18Clause17 ∧
     Fcgi.C18N.C18Clause18 ∧
-    Fcgi.C18H.Example.C18Clause19 :=
-  ⟨Fcgi.C18.C18Clause1_holds, Fcgi.C18.C18Clause2_holds, Fcgi.C18.C18Clause3_holds, Fcgi.C18.C18Clause4_holds, Fcgi.C18.C18Clause5_holds, Fcgi.C18.C18Clause6_holds, Fcgi.C18.C18Clause7_holds, Fcgi.C18.C18Clause8_holds, Fcgi.C18.C18Clause9_holds, Fcgi.C18.C18Clause10_holds, Fcgi.C18.C18Clause11_holds, Fcgi.C18.C18Clause12_holds, Fcgi.C18H.C18Clause13_holds, Fcgi.C18H.C18Clause14_holds, Fcgi.C18H.C18Clause15_holds, Fcgi.C18N.C18Clause16_holds, Fcgi.C18N.C18Clause17_holds, Fcgi.C18N.C18Clause18_holds, Fcgi.C18H.Example.C18Clause19_holds⟩
+    Fcgi.C18N.C18Clause19 ∧
+    Fcgi.C18N.C18Clause20 ∧
+    Fcgi.C18H.Example.C18Clause21 :=
+  ⟨Fcgi.C18.C18Clause1_holds, Fcgi.C18.C18Clause2_holds, Fcgi.C18.C18Clause3_holds, Fcgi.C18.C18Clause4_holds, Fcgi.C18.C18Clause5_holds, Fcgi.C18.C18Clause6_holds, Fcgi.C18.C18Clause7_holds, Fcgi.C18.C18Clause8_holds, Fcgi.C18.C18Clause9_holds, Fcgi.C18.C18Clause10_holds, Fcgi.C18.C18Clause11_holds, Fcgi.C18.C18Clause12_holds, Fcgi.C18H.C18Clause13_holds, Fcgi.C18H.C18Clause14_holds, Fcgi.C18H.C18Clause15_holds, Fcgi.C18N.C18Clause16_holds, Fcgi.C18N.C18Clause17_holds, Fcgi.C18N.C18Clause18_holds, Fcgi.C18N.C18Clause19_holds, Fcgi.C18N.C18Clause20_holds, Fcgi.C18H.Example.C18Clause21_holds⟩
 end Fcgi.Headline
 
 
